@@ -279,6 +279,22 @@ class Hist:
                 self.pop.remove(s)
         self.ev['st'] = [s.net.digest() for s in touched]
 
+    def scribble(self, s, lists, what):
+        """The caller goes on using (and changing) the list objects it passed in; the
+        circuit must not move: it has to hold copies."""
+        before, busers = observe.snap(s.real)
+        for l in lists:
+            if isinstance(l, list):
+                l.append('__caller_scribble__')
+                l.reverse()
+        after, ausers = observe.snap(s.real)
+        if not observe.same_view(before, after) or busers != ausers:
+            self.violate('C02', 'argument-aliased', what, f'{what}: the circuit changed when the caller modified the list it had passed in')
+            self.ev['out'] = 'violation'
+            self.quarantine([s], 'violation')
+            raise Quarantine()
+        self.res.stats.probes.bump('argument-lists-scribbled')
+
     def tt_of(self, net: Net):
         if len(net.inputs) > MAX_INPUTS_TT:
             return None
@@ -376,7 +392,8 @@ class Hist:
         if rng.random() < self.cfg['p_invalid'] and s.net.gates:
             labs.append(rng.choice(list(s.net.gates)))
             valid = False
-        self.call(lambda: s.real.add_inputs(labs), [s], valid, f'#{s.sid}.add_inputs({labs})')
+        self.call(lambda: s.real.add_inputs(labs), [s], valid, f'#{s.sid}.add_inputs({list(labs)})')
+        self.scribble(s, [labs], 'add_inputs')
         self.settle([s])
 
     def op_remove_gate(self, op, rng):
@@ -493,7 +510,8 @@ class Hist:
         if rng.random() < self.cfg['p_invalid']:
             outs.append('__absent__')
             valid = False
-        self.call(lambda: s.real.set_outputs(outs), [s], valid, f'#{s.sid}.set_outputs({outs})')
+        self.call(lambda: s.real.set_outputs(outs), [s], valid, f'#{s.sid}.set_outputs({list(outs)})')
+        self.scribble(s, [outs], 'set_outputs')
         self.settle([s])
 
     def op_set_inputs(self, op, rng):
@@ -515,7 +533,8 @@ class Hist:
                     return
                 ins.append(rng.choice(non))
             valid = False
-        self.call(lambda: s.real.set_inputs(ins), [s], valid, f'#{s.sid}.set_inputs({ins})')
+        self.call(lambda: s.real.set_inputs(ins), [s], valid, f'#{s.sid}.set_inputs({list(ins)})')
+        self.scribble(s, [ins], 'set_inputs')
         self.settle([s])
 
     def op_order_inputs(self, op, rng):
@@ -528,7 +547,8 @@ class Hist:
         if rng.random() < self.cfg['p_invalid']:
             part.append('__absent__')
             valid = False
-        self.call(lambda: s.real.order_inputs(part), [s], valid, f'#{s.sid}.order_inputs({part})')
+        self.call(lambda: s.real.order_inputs(part), [s], valid, f'#{s.sid}.order_inputs({list(part)})')
+        self.scribble(s, [part], 'order_inputs')
         self.settle([s])
 
     def op_order_outputs(self, op, rng):
@@ -541,7 +561,8 @@ class Hist:
         if rng.random() < self.cfg['p_invalid']:
             part.append('__absent__')
             valid = False
-        self.call(lambda: s.real.order_outputs(part), [s], valid, f'#{s.sid}.order_outputs({part})')
+        self.call(lambda: s.real.order_outputs(part), [s], valid, f'#{s.sid}.order_outputs({list(part)})')
+        self.scribble(s, [part], 'order_outputs')
         self.settle([s])
 
     def op_replace_inputs(self, op, rng):
@@ -599,7 +620,8 @@ class Hist:
             gates = gates + ['__absent__']
             valid = False
         self.call(lambda: s.real.make_block(name, gates, outs, ins), [s], valid,
-                  f'#{s.sid}.make_block({name!r},{gates},{outs},{ins})')
+                  f'#{s.sid}.make_block({name!r},{list(gates)},{list(outs)},{None if ins is None else list(ins)})')
+        self.scribble(s, [gates, outs, ins], 'make_block')
         self.settle([s])
 
     def op_block_from_slice(self, op, rng):
